@@ -831,3 +831,67 @@ equivalent("c15-eq-explicit-fields", "C15", (E, """        fields = vars(self).c
         return representation.as_constructor(self, fields)
 
     def configure("""))
+
+# ------------------------------------------------------------------------------------------ C13
+mutant("c13-restart-without-clear", "C13", (E, """        for output_variable in self.output_variables:
+            output_variable.clear()
+
+    def process""", """        for output_variable in self.output_variables:
+            pass
+
+    def process"""), "H2/Engine.restart/outputs")
+mutant("c13-restart-keeps-inputs", "C13", (E, """        for input_variable in self.input_variables:
+            input_variable.value = nan
+""", ""), "H2/Engine.restart/inputs")
+mutant("c13-copy-shallow", "C13", (E, "        engine = copy.deepcopy(self)", "        engine = copy.copy(self)"), "H4/Engine.copy/deepcopy")
+mutant("c13-term-deepcopy-returns-self", "C13", (T, """        return False
+
+    def discretize(""", """        return False
+
+    def __deepcopy__(self, memo: Any) -> Term:
+        return self
+
+    def discretize("""), "H4/copy-hook/Term.__deepcopy__")
+mutant("c13-grouped-terms-stores-original", "C13", (T, """                groups[activated.term.name] = Activated(
+                    activated.term, activated.degree, implication=None
+                )
+                continue""", """                groups[activated.term.name] = activated
+                continue"""), "H6/Aggregated.grouped_terms/fresh-objects")
+mutant("c13-mutable-default", "C13", (R, "        hedges: Iterable[Hedge] | None = None,", "        hedges: Iterable[Hedge] | None = [],"), "H4/mutable-default")
+mutant("c13-class-level-cache", "C13", (T, """    def activation_degree(self, term: Term) -> Scalar:""", """    _cache: dict[str, Scalar] = {}
+
+    def activation_degree(self, term: Term) -> Scalar:"""), "", kind="equivalent")
+mutant("c13-class-level-cache-written", "C13", [(T, """    def activation_degree(self, term: Term) -> Scalar:""", """    _cache: dict[str, Scalar] = {}
+
+    def activation_degree(self, term: Term) -> Scalar:"""), (T, "        activated = self.grouped_terms().get(term.name)\n", "        activated = self.grouped_terms().get(term.name)\n        Aggregated._cache[term.name] = activated\n")], "H4/shared-mutable/Aggregated._cache")
+mutant("c13-previous-value-read-unlocked", "C13", (V, """        # Applying default values
+        if not np.isnan(self.default_value):
+            value[np.isnan(value)] = self.default_value  # type: ignore""", """        # Applying default values
+        if not np.isnan(self.default_value):
+            value[np.isnan(value)] = self.default_value  # type: ignore
+        elif np.isnan(value).all():
+            value = scalar(self.previous_value)"""), "H5/OutputVariable.defuzzify/previous-under-lock")
+mutant("c13-proposition-reads-any-variable", "C13", (R, """            if isinstance(node.variable, InputVariable):
+                result = node.term.membership(node.variable.value)
+            elif isinstance(node.variable, OutputVariable):
+                result = node.variable.fuzzy.activation_degree(node.term)""", """            result = node.term.membership(node.variable.value)"""), "H5/Antecedent.activation_degree/proposition-value")
+mutant("c13-init-skips-update-reference", "C13", (E, """            for variable in self.variables:
+                for term in variable.terms:
+                    term.update_reference(self)
+""", ""), "H7/Engine.__init__/update-references")
+mutant("c13-reload-without-unload", "C13", (R, "        self.unload_rules()\n        self.load_rules(engine)", "        self.load_rules(engine)"), "H2/RuleBlock.reload_rules")
+mutant("c13-first-no-deactivate", ["C13", "C08"], (A, """        for rule in iter(rule_block.rules):
+            rule.deactivate()
+""", """        for rule in iter(rule_block.rules):
+"""), "O-dea/First.activate")
+equivalent("c13-eq-restart-order", "C13", (E, """        for input_variable in self.input_variables:
+            input_variable.value = nan
+
+        for rule_block in self.rule_blocks:
+            rule_block.reload_rules(self)
+""", """        for rule_block in self.rule_blocks:
+            rule_block.reload_rules(self)
+
+        for input_variable in self.input_variables:
+            input_variable.value = nan
+"""))
